@@ -255,8 +255,32 @@ func searchMain(t *testing.T, h Harness) {
 			os.WriteFile(cg, b, 0o644)
 		}
 		dump := envInt("VERIF_DUMPRUN", -1) == execs+1
-		res := h.Run(t, c, trace || dump)
+		dbl := os.Getenv("VERIF_DOUBLE")
+		full := os.Getenv("VERIF_FULLLOG")
+		res := h.Run(t, c, trace || dump || dbl != "" || full != "")
 		execs++
+		if full != "" {
+			// determinism self-test: every run's event log, so that two processes that
+			// disagree on a fingerprint can be compared line by line
+			if f, err := os.OpenFile(full, os.O_APPEND|os.O_CREATE|os.O_WRONLY, 0o644); err == nil {
+				fmt.Fprintf(f, "=== run %d\n%s\n", execs, strings.Join(res.Log, "\n"))
+				f.Close()
+			}
+		}
+		if dbl != "" {
+			// repeatability self-test: the same case executed again in this process
+			// must give the same event log; both logs are kept when it does not
+			res2 := h.Run(t, c, true)
+			if res2.Fingerprint != res.Fingerprint {
+				out.Known["(double) differs"]++
+				os.WriteFile(fmt.Sprintf("%s/w%d-r%d.a", dbl, worker, execs), []byte(strings.Join(res.Log, "\n")+"\n"), 0o644)
+				os.WriteFile(fmt.Sprintf("%s/w%d-r%d.b", dbl, worker, execs), []byte(strings.Join(res2.Log, "\n")+"\n"), 0o644)
+				cb, _ := json.Marshal(c)
+				rf := ReplayFile{Property: h.Property, Harness: h.Name, VerifSeed: seed, Worker: worker, Fingerprint: fmt.Sprintf("%016x", res.Fingerprint), Case: cb}
+				b, _ := json.Marshal(rf)
+				os.WriteFile(fmt.Sprintf("%s/w%d-r%d.json", dbl, worker, execs), b, 0o644)
+			}
+		}
 		if dump {
 			os.WriteFile(os.Getenv("VERIF_FPLOG")+".dump", []byte(strings.Join(res.Log, "\n")+"\nLEAK:"+res.Leak+"\nPANIC:"+res.Panic+"\n"), 0o644)
 		}
